@@ -1828,6 +1828,19 @@ func (g *vcgen) builtin(v ssa.Value, b *ssa.Builtin, c *ssa.CallCommon, args []s
 			g.assume(fmt.Sprintf("(forall ((i!a Int)) (=> (and (<= 0 i!a) (< i!a (slen %s))) (= (select %s (+ (slen %s) i!a)) (select (select %s (sarr %s)) (+ (soff %s) i!a)))))", args[1], na, s, cur, args[1], args[1]))
 		}
 		g.set(arr, fmt.Sprintf("(store %s %s %s)", cur, r, na))
+		if b, isB := st.Elem().Underlying().(*types.Basic); isB && b.Info()&types.IsString != 0 {
+			if _, packed := c.Args[1].Type().Underlying().(*types.Slice); packed {
+				// totallen (sum of the lengths of the elements) is additive over append; a one-element slice has its element's length
+				tl := g.totalLenFun()
+				rowS := fmt.Sprintf("(select %s (sarr %s))", cur, s)
+				rowP := fmt.Sprintf("(select %s (sarr %s))", cur, args[1])
+				tS := fmt.Sprintf("(%s %s (soff %s) (slen %s))", tl, rowS, s, s)
+				tP := fmt.Sprintf("(%s %s (soff %s) (slen %s))", tl, rowP, args[1], args[1])
+				g.assume(fmt.Sprintf("(= (%s %s 0 %s) (+ %s %s))", tl, na, newLen, tS, tP))
+				g.assume(fmt.Sprintf("(=> (= (slen %s) 1) (= %s (str.len (select %s (soff %s)))))", args[1], tP, rowP, args[1]))
+				g.assume(fmt.Sprintf("(and (>= %s 0) (=> (= (slen %s) 0) (= %s 0)))", tS, s, tS))
+			}
+		}
 		return []string{res}
 	case "delete":
 		mt, ok := c.Args[0].Type().Underlying().(*types.Map)
@@ -2298,8 +2311,9 @@ func (g *vcgen) emitChanEventsVal(kind string, ch ssa.Value, cond string, sent s
 }
 
 type eventSig struct {
-	args []types.Type // a0 = receiver for methods and interface calls
-	ret  types.Type
+	args  []types.Type // a0 = receiver for methods and interface calls
+	names []string     // parameter names of the callee, aligned with args ("" when unknown)
+	ret   types.Type
 }
 
 // eventSig: argument and result types of the calls that emit the event (taken from the first call site in the module)
@@ -2328,6 +2342,14 @@ func (e *Engine) eventSig(name string) *eventSig {
 						sg := &eventSig{}
 						if c.IsInvoke() {
 							sg.args = append(sg.args, c.Value.Type())
+							sg.names = append(sg.names, "recv")
+							for k := 0; k < c.Signature().Params().Len(); k++ {
+								sg.names = append(sg.names, c.Signature().Params().At(k).Name())
+							}
+						} else if callee := c.StaticCallee(); callee != nil {
+							for _, prm := range callee.Params {
+								sg.names = append(sg.names, prm.Name())
+							}
 						}
 						for _, a := range c.Args {
 							sg.args = append(sg.args, a.Type())
